@@ -45,26 +45,29 @@ def status_tables(chk, prog):
         chk.ob("R1.try_from.rest", f, f"keys={keys}", is_err and keys == [("rest",)],
                "every code that is not a listed literal must map to Err", where=f"{prog.hir[f]['file']}:{line}")
     chk.ob("R1.try_from.has_rest", f, "wildcard->Err", any(k == [("rest",)] for k, _, _, _ in rest), "no catch-all Err arm")
-    # variant -> code
+    # variant -> code, variant -> phrase: from the `match` in the source when its arms are literals, else from the MIR (one shared `match`
+    # returning (code, phrase) behind accessor helpers reads like the two tables it replaced)
+    def enum_table(fn_path, want_ty, label):
+        m_ = tables.main_table(prog, fn_path)
+        mp_, rest_, _ = tables.simple_map(m_, key_kinds=("path",)) if m_ is not None else ({}, [], None)
+        lits = {tables.variant_name(vp): val[1] for vp, val in mp_.items() if val[0] == "lit" and isinstance(val[1], want_ty)}
+        if len(lits) == len(mp_) and len(lits) >= len(variants) and not rest_:
+            return lits, rest_, "source match"
+        vm = tables.variant_map_mir(prog, fn_path)
+        if vm and all(v[0] == "lit" and isinstance(v[1], want_ty) for v in vm.values()):
+            return {k: v[1] for k, v in vm.items()}, [], "MIR"
+        for vp, val in mp_.items():
+            chk.ob(f"R1.{label}.arm", fn_path, f"variant={tables.variant_name(vp)}", val[0] == "lit" and isinstance(val[1], want_ty), "arm is not a literal of the expected type")
+        return lits, rest_, "source match"
     g = fns["to_u16"][0]
-    m2 = tables.main_table(prog, g)
-    var2code, rest2, dup2 = tables.simple_map(m2, key_kinds=("path",))
-    v2c = {}
-    for vp, val in var2code.items():
-        ok = val[0] == "lit" and isinstance(val[1], int)
-        chk.ob("R1.to_u16.arm", g, f"variant={tables.variant_name(vp)}", ok, "arm is not an integer literal")
-        if ok:
-            v2c[tables.variant_name(vp)] = val[1]
+    v2c, rest2, how2 = enum_table(g, int, "to_u16")
+    for v_ in sorted(v2c):
+        chk.ob("R1.to_u16.arm", g, f"variant={v_}", True)
     chk.ob("R1.to_u16.no_wildcard", g, "no catch-all", not rest2, f"unexpected catch-all / non-variant arms: {[(k) for k, _, _, _ in rest2]}")
-    # phrases
     h = fns["to_str"][0]
-    m3 = tables.main_table(prog, h)
-    var2str, rest3, dup3 = tables.simple_map(m3, key_kinds=("path",))
-    v2s = {}
-    for vp, val in var2str.items():
-        if val[0] == "lit" and isinstance(val[1], str):
-            v2s[tables.variant_name(vp)] = val[1]
+    v2s, rest3, how3 = enum_table(h, str, "to_str")
     chk.ob("R1.to_str.no_wildcard", h, "no catch-all", not rest3, "reason-phrase table has a catch-all arm")
+    chk.extra["status_tables_read_from"] = {"to_u16": how2, "to_str": how3}
 
     for v in variants:
         # totality + inverse
